@@ -32,6 +32,7 @@ type Opts struct {
 	Cross      []string        // second solvers through which the recorded session of one worker is replayed
 	CrossMaxQ  int             // queries recorded for that
 	CrossS     float64         // time allowed to each second solver
+	MapOrders  bool            // the order in which kevo's code walks a small map is a choice point
 }
 
 // Sample is one terminated path written out for the evidence / for native validation.
